@@ -15,7 +15,7 @@ def export_cases(idx, tla, cfg, prefix="CASE ", workers=8, cfg_text=None, timeou
     extra = None
     if simulate:
         extra = ["-simulate", "num=%d" % simulate["num"], "-depth", str(simulate["depth"]), "-seed", str(simulate["seed"])]
-    res = tlc(None, tla, cfg, d, workers=workers, timeout=timeout, cfg_text=cfg_text, extra=extra)
+    res = tlc(None, tla, cfg, d, workers=workers, timeout=timeout, cfg_text=cfg_text, extra=extra, heap="6g")
     if not res["ok"] and not simulate:
         tlc_failed(res, "%s / %s" % (tla, cfg))
     seen = set()
